@@ -554,6 +554,7 @@ func (rc *recorder) renderState(kind string, hist []string, idx int, full bool) 
 		}
 		grow := newState(kind)
 		prev := []M{}
+		failed := false
 		step := (len(hist) + 3) / 4
 		for i, el := range hist {
 			grow.sample(el)
@@ -568,11 +569,39 @@ func (rc *recorder) renderState(kind string, hist []string, idx int, full bool) 
 			}
 			rc.render(c, obs, append([]M{}, prev...), len(prev) == 0, in.lines(), msg, idx, before, in.foot)
 			if msg != "" {
+				failed = true
 				break
 			}
 			prev = append(prev, obs)
 		}
+		// rows disappear: cmd/spark.go trims the columns outside the displayed window before every render (a row whose
+		// cells all lay there goes with them); the same instance then draws the smaller data
+		if cols := grow.tblColumns(c.ByVal); !failed && (rdr == "spark" || rdr == "heat") && len(cols) > 0 {
+			keepN := c.Cols
+			if keepN >= len(cols) {
+				keepN = len(cols) - 1 // at least the oldest column goes
+			}
+			keep := map[string]bool{}
+			for _, k := range cols[len(cols)-keepN:] {
+				keep[k] = true
+			}
+			grow.tbl.Trim(func(col, row string, val int64) bool { return !keep[col] })
+			before := in.lines()
+			obs, msg := in.renderGuarded(grow)
+			if hung != "" {
+				rc.render(c, obs, append([]M{}, prev...), false, [][]int{}, msg, idx, before, nil)
+				return
+			}
+			rc.render(c, obs, append([]M{}, prev...), len(prev) == 0, in.lines(), msg, idx, before, in.foot)
+		}
 	}
+}
+
+func (s *state) tblColumns(byValue bool) []string {
+	if s.tbl == nil {
+		return nil
+	}
+	return s.tbl.OrderedColumns(sorterOf(byValue))
 }
 
 // ------------------------------------------------------------------ replay (B1)
@@ -770,6 +799,8 @@ func c14Replay(args []string) error {
 	var samples []M
 	ist := &instStats{vectors: map[string]int{}}
 	ninst, canaryRejected := 0, 0
+	hst := &histStats{vectors: map[string]int{}}
+	nhist, histCanaryRejected := 0, 0
 	err = vh.ReadNd(*in, func(raw json.RawMessage) error {
 		var v vector
 		if err := json.Unmarshal(raw, &v); err != nil {
@@ -780,6 +811,17 @@ func c14Replay(args []string) error {
 			if m := instReplay(raw, ninst, ist); m != nil {
 				if c, _ := m["canary"].(bool); c {
 					canaryRejected++
+				} else if len(mism) < 400 {
+					mism = append(mism, m)
+				}
+			}
+			return nil
+		}
+		if v.K == "hist" {
+			nhist++
+			if m := histReplay(raw, nhist, hst); m != nil {
+				if c, _ := m["canary"].(bool); c {
+					histCanaryRejected++
 				} else if len(mism) < 400 {
 					mism = append(mism, m)
 				}
@@ -844,6 +886,7 @@ func c14Replay(args []string) error {
 	}
 	rc.w.Close()
 	vh.WriteJSON(*res, M{"inst_vectors": ninst, "inst_per_machine": ist.vectors, "inst_ops": ist.ops, "inst_nontrivial": ist.nontriv, "inst_canaries_rejected": canaryRejected,
+		"hist_vectors": nhist, "hist_per_machine": hst.vectors, "hist_renders": hst.renders, "hist_nontrivial": hst.nontriv, "hist_canaries_rejected": histCanaryRejected,
 		"fn_vectors": nfn, "state_vectors": nstate, "per_fn": perF, "fn_nontrivial": fnNontriv,
 		"mismatches": mism, "renders": rc.renders, "records": rc.w.N, "identical": rc.skipped, "panics": rc.panics,
 		"per_renderer": rc.perRdr, "nontrivial": rc.nontriv, "samples": append(samples, rc.samples...), "max_lines": rc.maxLines, "hung": hung})
@@ -910,6 +953,9 @@ func randHistory(r *rand.Rand, kind string) []string {
 	subs := pick(r, 1+r.Intn(7))
 	if r.Intn(5) == 0 {
 		subs = pick(r, 8+r.Intn(10))
+	}
+	if kind == "sub" && r.Intn(4) == 0 {
+		subs = pick(r, 13+r.Intn(9)) // more series than the bar graph has group colours (12) or ascii marks (16)
 	}
 	n := 1 + r.Intn(24)
 	mode := r.Intn(6) // 0: all zero, 1: all equal, 2: non-positive, else mixed
